@@ -250,3 +250,153 @@ pub fn mat3a_of(a: [f32; 9]) -> Mat3A {
 pub fn affine3a_of(a: [f32; 12]) -> Affine3A {
     Affine3A { matrix3: mat3a_of([a[0], a[1], a[2], a[3], a[4], a[5], a[6], a[7], a[8]]), translation: vec3a_of([a[9], a[10], a[11]]) }
 }
+
+// ---- uninterpreted matrix-level functions (forwarding lemmas): key = bits of up to two matrices + one vector/scalar
+pub struct MemoK<T: Copy> {
+    pub calls: usize,
+    pub k: [[u64; 36]; 6],
+    pub v: [T; 6],
+}
+#[inline(always)]
+pub fn keq36(a: &[u64; 36], b: &[u64; 36]) -> bool {
+    let mut i = 0;
+    let mut ok = true;
+    while i < 36 {
+        ok = ok && a[i] == b[i];
+        i += 1;
+    }
+    ok
+}
+#[inline(always)]
+pub fn kcat(a: [u64; 16], b: [u64; 16], c: [u64; 4]) -> [u64; 36] {
+    let mut k = [0u64; 36];
+    let mut i = 0;
+    while i < 16 {
+        k[i] = a[i];
+        k[16 + i] = b[i];
+        i += 1;
+    }
+    k[32] = c[0];
+    k[33] = c[1];
+    k[34] = c[2];
+    k[35] = c[3];
+    k
+}
+impl<T: Copy> MemoK<T> {
+    pub const fn new(z: T) -> Self {
+        MemoK { calls: 0, k: [[0; 36]; 6], v: [z; 6] }
+    }
+    #[inline(always)]
+    pub fn get(&mut self, key: [u64; 36], fresh: T) -> T {
+        let i = self.calls;
+        assert!(i < 6, "uf memo table overflow");
+        let mut v = fresh;
+        let mut j = 6;
+        while j > 0 {
+            j -= 1;
+            if j < i && keq36(&self.k[j], &key) {
+                v = self.v[j];
+            }
+        }
+        self.k[i] = key;
+        self.v[i] = v;
+        self.calls = i + 1;
+        v
+    }
+}
+
+// ---- uniform "everything observable" view of a result (two-run non-interference obligations) ----
+pub trait Vis {
+    fn vis(&self) -> [u64; 16];
+}
+#[inline(always)]
+fn pad4(w: [u64; 4]) -> [u64; 16] {
+    let mut o = [0u64; 16];
+    o[0] = w[0]; o[1] = w[1]; o[2] = w[2]; o[3] = w[3];
+    o
+}
+macro_rules! vis_words {
+    ($($t:ty),*) => {$( impl Vis for $t { #[inline(always)] fn vis(&self) -> [u64; 16] { pad4(self.words()) } } )*};
+}
+vis_words!(f32, f64, bool, u8, u16, u32, u64, usize, i8, i16, i32, i64, Vec2, Vec3, Vec3A, Vec4, DVec2, DVec3, DVec4, Quat, DQuat,
+           IVec2, IVec3, IVec4, UVec2, UVec3, UVec4, I8Vec3, U8Vec3, I16Vec3, U16Vec3, I64Vec3, U64Vec3, USizeVec3);
+macro_rules! vis_mbits {
+    ($($t:ty),*) => {$( impl Vis for $t { #[inline(always)] fn vis(&self) -> [u64; 16] { self.mbits() } } )*};
+}
+vis_mbits!(Mat2, Mat3, Mat3A, Mat4, DMat2, DMat3, DMat4, Affine2, Affine3A, DAffine2, DAffine3);
+macro_rules! vis_mask {
+    ($($t:ty),*) => {$( impl Vis for $t { #[inline(always)] fn vis(&self) -> [u64; 16] { let mut o = [0u64; 16]; o[0] = self.bitmask() as u64; o } } )*};
+}
+vis_mask!(BVec2, BVec3, BVec4, BVec3A, BVec4A);
+impl<A: Vis, B: Vis> Vis for (A, B) {
+    #[inline(always)]
+    fn vis(&self) -> [u64; 16] {
+        let (a, b) = (self.0.vis(), self.1.vis());
+        [a[0], a[1], a[2], a[3], a[4], a[5], a[6], a[7], b[0], b[1], b[2], b[3], b[4], b[5], b[6], b[7]]
+    }
+}
+impl<A: Vis, B: Vis, C: Vis> Vis for (A, B, C) {
+    #[inline(always)]
+    fn vis(&self) -> [u64; 16] {
+        let (a, b, c) = (self.0.vis(), self.1.vis(), self.2.vis());
+        [a[0], a[1], a[2], a[3], a[4], b[0], b[1], b[2], b[3], b[4], c[0], c[1], c[2], c[3], c[4], 0]
+    }
+}
+impl<A: Vis> Vis for Option<A> {
+    #[inline(always)]
+    fn vis(&self) -> [u64; 16] {
+        match self {
+            Some(a) => { let mut o = a.vis(); o[15] = 1; o }
+            None => [0u64; 16],
+        }
+    }
+}
+impl<const K: usize> Vis for [f32; K] {
+    #[inline(always)]
+    fn vis(&self) -> [u64; 16] {
+        let mut o = [0u64; 16];
+        let mut i = 0;
+        while i < K && i < 16 { o[i] = self[i].to_bits() as u64; i += 1; }
+        o
+    }
+}
+impl<const K: usize> Vis for [[f32; 3]; K] {
+    #[inline(always)]
+    fn vis(&self) -> [u64; 16] {
+        let mut o = [0u64; 16];
+        let mut i = 0;
+        while i < K && i * 3 + 2 < 16 { o[i * 3] = self[i][0].to_bits() as u64; o[i * 3 + 1] = self[i][1].to_bits() as u64; o[i * 3 + 2] = self[i][2].to_bits() as u64; i += 1; }
+        o
+    }
+}
+#[inline(always)]
+pub fn vsame<T: Vis>(a: &T, b: &T) -> bool {
+    let (x, y) = (a.vis(), b.vis());
+    let mut i = 0;
+    let mut ok = true;
+    while i < 16 { ok = ok && x[i] == y[i]; i += 1; }
+    ok
+}
+/// same visible lanes, independently symbolic hidden lanes
+#[inline(always)]
+pub fn vec3a_pair() -> (Vec3A, Vec3A) {
+    let v: [f32; 3] = vk::any();
+    (vec3a_of(v), vec3a_of(v))
+}
+#[inline(always)]
+pub fn mat3a_pair() -> (Mat3A, Mat3A) {
+    let a: [f32; 9] = vk::any();
+    (mat3a_of(a), mat3a_of(a))
+}
+#[inline(always)]
+pub fn affine3a_pair() -> (Affine3A, Affine3A) {
+    let a: [f32; 12] = vk::any();
+    (affine3a_of(a), affine3a_of(a))
+}
+/// BVec3A with the given visible lanes and the hidden lane SET (all-ones)
+#[inline(always)]
+pub fn bvec3a_hidden(v: [bool; 3]) -> BVec3A {
+    let ones = Vec3A::from_vec4(Vec4::ONE).cmpeq(Vec3A::from_vec4(Vec4::ONE));
+    let vis_only = Vec3A::from_vec4(Vec4::new(0.0, 0.0, 0.0, 1.0)).cmpeq(Vec3A::from_vec4(Vec4::ZERO));
+    BVec3A::from_array(v) | (ones ^ vis_only)
+}
